@@ -145,21 +145,33 @@ def rf_nwk(c):
     return p
 
 
+def rf_modes(c):
+    """802.15.4 addressing modes of the MAC header (0 none, 2 short, 3 long) for source, destination"""
+    d = 3 if c.get("long", True) else 2
+    return c.get("smode", d), c.get("dmode", d)
+
+
 def rf_wrap(c, p):
     if c["mode"] == "nwk":
         return p
     M = Dot15d4FCS if c["mode"] == "fcs" else Dot15d4
-    am = 3 if c.get("long", True) else 2
-    src = int.from_bytes(H(c["src"]), "little") if am == 3 else 0x1234
-    dst = int.from_bytes(H(c["dst"]), "little") if am == 3 else 0x5678
-    return M(fcf_frametype=1, fcf_srcaddrmode=am, fcf_destaddrmode=am, seqnum=c.get("seq", 9)) / \
-        Dot15d4Data(dest_panid=0x1234, dest_addr=dst, src_panid=0x5678, src_addr=src) / p
+    sm, dm = rf_modes(c)
+    kw = {}
+    if dm:
+        kw.update(dest_panid=0x1234, dest_addr=int.from_bytes(H(c["dst"]), "little") if dm == 3 else 0x5678)
+    if sm:
+        kw.update(src_panid=0x5678, src_addr=int.from_bytes(H(c["src"]), "little") if sm == 3 else 0x1234)
+    return M(fcf_frametype=1, fcf_srcaddrmode=sm, fcf_destaddrmode=dm, seqnum=c.get("seq", 9)) / \
+        Dot15d4Data(**kw) / p
 
 
 def rf_args(c, which=""):
+    """source / destination arguments: each one given or not (gsrc / gdst; default: both iff explicit)"""
     kw = {"rf4ce_only": c["mode"] == "nwk"}
-    if c.get("explicit", c["mode"] == "nwk"):
+    explicit = c.get("explicit", c["mode"] == "nwk")
+    if c.get("gsrc", explicit):
         kw["source"] = H(c.get(which + "src", c["src"]))
+    if c.get("gdst", explicit):
         kw["destination"] = H(c.get(which + "dst", c["dst"]))
     return kw
 
